@@ -36,6 +36,14 @@ CHECKS = {
         'note': TB + 'Not decided: that the result is a (reduced) echelon form, rank and null-space values, algebraic laws as value equalities.',
         'technique': 'mirrored-operation pairing, who-may-write, return-path condition analysis, sibling descriptors',
     },
+    'C19': {
+        'text': 'Static: in the call-graph closure of each seeded builder every random draw uses the builder\'s own rng field and no other entropy, '
+                'clock, environment source or RandomState iteration is reachable; seed() installs seed_from_u64(seed); every field setter writes '
+                'exactly its own field; the 2-/3-way distinct-index idioms are proved pairwise distinct and in range by a zone-domain abstract '
+                'interpretation (all paths), Pauli-gadget qubits are drawn without replacement; hidden-shift, Pauli-gadget and graph-state structure rules.',
+        'note': TB + 'Not decided: the hidden-shift promise, unit norm, numerator arithmetic, gate-kind probabilities.',
+        'technique': 'call-graph reachability with receiver-rooted determinism rule, zone-domain abstract interpretation, structural pairing rules',
+    },
 }
 
 _PENDING = 'check under construction in this round (rules designed in DESIGN.md section 5; not yet registered)'
